@@ -339,6 +339,8 @@ pub mod tokio_util { pub mod sync {
         #[verifier::external_body] pub fn new() -> CancellationToken { unimplemented!() }
         #[verifier::external_body] pub async fn cancelled(&self) { unimplemented!() }
         #[verifier::external_body] pub fn cancel(&self) { unimplemented!() }
+        // whether cancel() has been called by anyone holding the token: unconstrained here
+        #[verifier::external_body] pub fn is_cancelled(&self) -> bool { unimplemented!() }
     }
 } }
 // what a joined task reports: its index in the group, and whether its outcome counts as a failure
